@@ -22,7 +22,7 @@ ASSUMPTIONS = [
     "the 'differences' kernel (start, step, stride) is read as all in-window differences x[j+step]-x[j], j = start, start+stride, ...",
 ]
 MIN_NONTRIVIAL = {"quick": 100, "thorough": 1000}
-REQUIRED = {"quick": {"windows_compared": 300, "diff_compared": 60}, "thorough": {"windows_compared": 3000, "diff_compared": 500}}
+REQUIRED = {"quick": {"windows_compared": 300, "diff_compared": 60, "dtype_history_checks": 100}, "thorough": {"windows_compared": 3000, "diff_compared": 500, "dtype_history_checks": 1000}}
 
 
 def plan(tier, seed):
@@ -238,6 +238,26 @@ def check_case(ctx, c):
         i = int(np.argwhere(bad)[0][0])
         ctx.violation(key, "window %d differs from the reference" % i, c, {"got": out[i][:12], "expected": exp[i][:12]}, sig=_sig(c))
         return
+    # call history with another dtype: an estimator fitted on integer data must window float data faithfully (and vice versa)
+    if c["kernel"] in ("none", "average", "matrix") and not c["d"]:
+        other = (arr.astype(np.float64) + 0.37) if arr.dtype.kind == "i" else np.round(arr).astype(np.int64)
+        est2 = SlidingWindowTransformer(window_width=c["width"], window_stride=c["stride"], window_sample=smp, kernels=kernels, pad_width=c["pad"], pad_value=c["pad_value"])
+        try:
+            est2.fit([arr])
+            out2 = np.asarray(est2.transform([other])[0])
+            padb = np.full((pad,), c["pad_value"], dtype=other.dtype)
+            xo = np.concatenate([padb, other, padb]) if pad else other
+            wo = sliding_window_view(xo, c["width"], axis=0)[:: c["stride"]][:, pos].astype(np.float64)
+            exo = np.einsum("rk,nk->nr", M, wo).reshape(wo.shape[0], -1)
+            ctx.count("dtype_history_checks")
+            if out2.shape != exo.shape or not np.allclose(out2, exo, rtol=1e-9, atol=1e-9 if c["dtype"] != "float32" else 1e-4):
+                viol_key = "C19/%s/fit-dtype-leaks-into-transform" % name
+                ctx.violation(viol_key, "fitted on %s data, transform of %s data differs from the reference windows" % (arr.dtype, other.dtype), c,
+                              {"got": out2[:2].tolist() if out2.size else [], "expected": exo[:2].tolist() if exo.size else []}, sig=_sig(c))
+                return
+        except Exception as e:
+            ctx.violation("C19/%s/dtype-history-raises/%s" % (name, type(e).__name__), "fit on %s then transform of %s raised %s" % (arr.dtype, other.dtype, str(e)[:160]), c, None, sig=_sig(c))
+            return
     if parent[:32].min() < (1e30 if arr.dtype.kind == "f" else 2**61) or arr.tobytes() != view.tobytes():
         ctx.violation("C19/%s/modifies-input" % name, "input buffer or its surroundings were written", c, None, sig=_sig(c))
         return
